@@ -13,6 +13,7 @@ mod cluster;
 mod comm;
 mod gens;
 mod par;
+mod sp;
 use std::io::{BufRead, Write};
 
 fn main() {
@@ -53,6 +54,7 @@ fn main() {
                     "comm" => comm::run_case(&cur, &mut o),
                     "gens" => gens::run_case(&cur, &mut o),
                     "par" => par::run_case(&cur, &mut o),
+                    "sp" => { sp::run_case(&cur, &mut o); if sp::hung() { o.flush(&mut out); writeln!(out, "end").unwrap(); out.flush().unwrap(); std::process::exit(0); } }
                     _ => {
                         eprintln!("unknown mode {}", mode);
                         std::process::exit(2);
